@@ -107,7 +107,25 @@ func (fe *FuncEnc) canInline(callee *ssa.Function, con *Contract) bool {
 	}
 	ci := analyzeCFG(callee)
 	if len(ci.loops) > 0 {
-		return false
+		// a helper without contract whose loops can take over loop clauses of the top contract that have lost their loop
+		if con != nil || fe.con == nil || fe.depth != 0 {
+			return false
+		}
+		for _, c := range fe.eng.calleesOf(callee) {
+			if c == callee {
+				return false // directly recursive: would be inlined without end
+			}
+		}
+		if fe.fn != nil {
+			fe.loopOrd(fe.fn, fe.con, 1)
+		}
+		pending := 0
+		for _, li := range ci.loops {
+			if _, done := fe.borrowed[fmt.Sprintf("%s:%d", fe.eng.fnames[callee], li.ord)]; !done {
+				pending++
+			}
+		}
+		return pending <= len(fe.orphanLoops)
 	}
 	if fe.depth >= 6 {
 		return false
@@ -177,6 +195,14 @@ func (fe *FuncEnc) inline(f *Frame, callee *ssa.Function, name string, args []Te
 		nf.ptypes[p.Name()] = p.Type()
 	}
 	fe.eng.aliasRecv(callee, nf.params, nf.ptypes)
+	if len(analyzeCFG(callee).loops) > 0 && fe.eng.contracts[name] == nil {
+		top := f
+		for top.parent != nil {
+			top = top.parent
+		}
+		nf.borrow = top
+		nf.mon = top.mon // its calls of eval / Callable.Call are events of the top invocation
+	}
 	nf.entry = st.clone()
 	saved := fe.cur
 	fe.cur = nf
